@@ -6,6 +6,8 @@ cd "$(dirname "$0")"
 export CARGO_NET_OFFLINE=true
 mkdir -p .build/traces .build/cache .build/audit evidence replays
 ln -sfn "${VERIF_REPO:-/repo}" .build/repo
-(cd lean && lake build 2>&1 | tail -5)
-(cd harness && cargo build --release --offline 2>&1 | tail -3)
+(cd lean && lake build > ../.build/lake-setup.log 2>&1) || { tail -30 .build/lake-setup.log; echo "setup: lake build failed"; exit 1; }
+tail -2 .build/lake-setup.log
+(cd harness && cargo build --release --offline > ../.build/cargo-setup.log 2>&1) || { tail -30 .build/cargo-setup.log; echo "setup: cargo build failed"; exit 1; }
+tail -1 .build/cargo-setup.log
 echo "setup done"
